@@ -424,6 +424,8 @@ def _slice(pc, seed_atoms):
 
 
 def conj_unsat(pc, conj):
+    if not conj:
+        return unsat(list(pc))
     seeds = set()
     for l in conj:
         seeds |= lit_atoms(l)
